@@ -1,4 +1,5 @@
 use super::Value;
+use super::evaluator_compare::compare_i64_f64;
 use std::collections::BTreeMap;
 
 pub(super) fn cypher_equals(left: &Value, right: &Value) -> Value {
@@ -24,7 +25,8 @@ fn float_equals_int(float_value: f64, int_value: i64) -> bool {
     if float_value.is_nan() || !float_value.is_finite() {
         return false;
     }
-    float_value == int_value as f64
+    // Exact: `int_value as f64` rounds above 2^53 and would equate distinct integers.
+    compare_i64_f64(int_value, float_value) == std::cmp::Ordering::Equal
 }
 
 fn cypher_equals_sequence(left: &[Value], right: &[Value]) -> Value {
